@@ -14,6 +14,14 @@ package formats
 //@   requires forall i int :: 0 <= i && i < len(sniffFormats) ==> sniffFormats[i] != nil
 //@   assigns global(state), (state)[*]
 //@   ensures [C04:sniff:oneOf] (result1 == nil) != (result0 == "")
+//@   ensures [C06:rewind] seekfailed(f) || streampos(f) == 0
+//@   ensures [C06:json:cdx13] jsonok(f) && strings.EqualFold(jsonmember(f, "bomFormat"), CDXFORMAT) && jsonmember(f, "specVersion") == "1.3" ==> result0 == CDX13JSON && result1 == nil
+//@   ensures [C06:json:cdx14] jsonok(f) && strings.EqualFold(jsonmember(f, "bomFormat"), CDXFORMAT) && jsonmember(f, "specVersion") == "1.4" ==> result0 == CDX14JSON && result1 == nil
+//@   ensures [C06:json:cdx15] jsonok(f) && strings.EqualFold(jsonmember(f, "bomFormat"), CDXFORMAT) && jsonmember(f, "specVersion") == "1.5" ==> result0 == CDX15JSON && result1 == nil
+//@   ensures [C06:json:cdxOther] jsonok(f) && strings.EqualFold(jsonmember(f, "bomFormat"), CDXFORMAT) && jsonmember(f, "specVersion") != "1.3" && jsonmember(f, "specVersion") != "1.4" && jsonmember(f, "specVersion") != "1.5" ==> result0 == "" && result1 != nil
+//@   ensures [C06:json:spdx22] jsonok(f) && !strings.EqualFold(jsonmember(f, "bomFormat"), CDXFORMAT) && jsonmember(f, "spdxVersion") == "SPDX-2.2" ==> result0 == SPDX22JSON && result1 == nil
+//@   ensures [C06:json:spdx23] jsonok(f) && !strings.EqualFold(jsonmember(f, "bomFormat"), CDXFORMAT) && jsonmember(f, "spdxVersion") == "SPDX-2.3" ==> result0 == SPDX23JSON && result1 == nil
+//@   ensures [C06:json:spdxOther] jsonok(f) && !strings.EqualFold(jsonmember(f, "bomFormat"), CDXFORMAT) && jsonmember(f, "spdxVersion") != "SPDX-2.2" && jsonmember(f, "spdxVersion") != "SPDX-2.3" ==> result0 == "" && result1 != nil
 
 //@ func Sniffer.SniffFile
 //@   props C04
@@ -49,3 +57,12 @@ package formats
 //@   holds stateMtx
 //@ func setSniffState
 //@   holds stateMtx
+
+// C06: the accessors of each format the sniffer reports agree with the
+// declaration the decision table in SniffReader maps to that format
+//@ table accessorsCDX13 [C06]: forall p *Format :: p != nil && *p == CDX13JSON ==> Format.Type(p) == "cyclonedx" && Format.Version(p) == "1.3" && Format.Encoding(*p) == "json" && Format.Major(p) == "1" && Format.Minor(p) == "3"
+//@ table accessorsCDX14 [C06]: forall p *Format :: p != nil && *p == CDX14JSON ==> Format.Type(p) == "cyclonedx" && Format.Version(p) == "1.4" && Format.Encoding(*p) == "json" && Format.Major(p) == "1" && Format.Minor(p) == "4"
+//@ table accessorsCDX15 [C06]: forall p *Format :: p != nil && *p == CDX15JSON ==> Format.Type(p) == "cyclonedx" && Format.Version(p) == "1.5" && Format.Encoding(*p) == "json" && Format.Major(p) == "1" && Format.Minor(p) == "5"
+//@ table accessorsSPDX22 [C06]: forall p *Format :: p != nil && *p == SPDX22JSON ==> Format.Type(p) == "spdx" && Format.Version(p) == "2.2" && Format.Encoding(*p) == "json" && Format.Major(p) == "2" && Format.Minor(p) == "2"
+//@ table accessorsSPDX23 [C06]: forall p *Format :: p != nil && *p == SPDX23JSON ==> Format.Type(p) == "spdx" && Format.Version(p) == "2.3" && Format.Encoding(*p) == "json" && Format.Major(p) == "2" && Format.Minor(p) == "3"
+//@ table accessorsSPDXTV [C06]: forall p *Format :: p != nil && (*p == SPDX23TV || *p == SPDX22TV) ==> Format.Type(p) == "spdx" && Format.Encoding(*p) == "text" && Format.Major(p) == "2"
